@@ -774,6 +774,13 @@ func genWorkload(seed uint64, deep bool) *Workload {
 		maxTasks, maxOps = 5, 5
 	}
 	nTasks := 2 + rng.Intn(maxTasks-1)
+	burst := rng.Bool(0.06)
+	if burst {
+		// a burst: many callers, one call each (limits, counters and pools that only
+		// misbehave above a handful of concurrent users)
+		nTasks = 6 + rng.Intn(6)
+		maxOps = 1
+	}
 	mkOp := func() OpSpec {
 		ti := pool[rng.Intn(len(pool))]
 		op := OpSpec{Kind: opKinds[rng.Intn(len(opKinds))], Type: ti.Name, ValSeed: rng.Uint64()}
